@@ -140,7 +140,7 @@ func c06(x *Ctx) {
 			}
 		}
 	}
-	c.Min(rDec, 12)
+	c.Min(rDec, 9)
 
 	// ---- clause 2: reloadable options are read by live code ------------------------------
 	const rFresh = "C06.reload-fresh"
@@ -168,13 +168,20 @@ func c06(x *Ctx) {
 			sites := eng.CallSites(funcs, func(n string, _ ssa.CallInstruction) bool { return n == name })
 			live := ""
 			firstPos := "collect"
+			frozenAt := ""
 			for _, s := range sites {
 				c.Examined++
 				firstPos = x.Pos(s.Instr)
-				if so, _ := x.startupOnly(s.Fn); !so {
-					live = x.Pos(s.Instr)
-					break
+				if fr, use := frozenBeforeServiceLoop(s.Instr); fr {
+					frozenAt = x.Pos(s.Instr) + " (used in the long-lived loop at " + x.Pos(use) + ")"
+					continue
 				}
+				if so, _ := x.startupOnly(s.Fn); !so && live == "" {
+					live = x.Pos(s.Instr)
+				}
+			}
+			if frozenAt != "" {
+				c.Violate(rFresh, o.field+"/frozen-before-loop", firstPos, o.field+" is read once before a long-lived channel loop and used inside it: "+frozenAt+"; a reload does not reach the forwarding goroutine")
 			}
 			switch {
 			case len(sites) == 0:
